@@ -216,17 +216,52 @@ def _chase(defs, op, depth=0):
     return None
 
 
+_NEW_DIRECT = set()
+
+
+def _chase_closure(defs, op, depth=0):
+    """Follow an operand through single-definition copies / borrows to a closure aggregate; returns its body path."""
+    if depth > 12 or op is None:
+        return None
+    p = op.get("move") or op.get("copy")
+    if p is None:
+        return None
+    if p["p"] and p["p"] != ["deref"]:
+        return None
+    ds = defs.get(p["l"], [])
+    if len(ds) != 1 or ds[0] is None:
+        return None
+    rv = ds[0]
+    if rv.get("agg") == "closure":
+        return rv.get("closure")
+    if "use" in rv:
+        return _chase_closure(defs, rv["use"], depth + 1)
+    if "ref" in rv and not rv["ref"]["p"]:
+        return _chase_closure(defs, {"copy": rv["ref"]}, depth + 1)
+    return None
+
+
 def devirtualise(body, by_path):
     """After inlining a helper that takes `impl Fn` parameters: calls `Fn::call(f, (a, b))` whose `f` is now known to
     be a function item become direct calls of that function (arguments untupled)."""
     defs = _single_defs(body)
     n = 0
+    new_direct = _NEW_DIRECT
     for blk in body["blocks"]:
         t = blk["term"]
-        if t["k"] != "call" or t.get("fn") not in CLOSURE_CALLS or t.get("resolved"):
+        if t["k"] != "call" or t.get("fn") not in CLOSURE_CALLS or (t.get("resolved") and t.get("resolved") in by_path):
             continue
         c = _chase(defs, t["args"][0]) if t.get("args") else None
         if not c or "fn" not in c:
+            # `f` is a closure value built in this very body (it was passed to a helper that has been folded in):
+            # the call becomes a direct call of that closure, which the closure-folding step then takes care of
+            cl = _chase_closure(defs, t["args"][0]) if t.get("args") else None
+            if cl is not None and cl in by_path and by_path[cl]["kind"] == "Closure":
+                t["resolved"] = cl
+                t["resolved_local"] = True
+                t["devirtualised"] = True
+                n += 1
+                new_direct.add(cl)
             continue
         tup = t["args"][1] if len(t["args"]) > 1 else None
         tp = (tup.get("move") or tup.get("copy")) if tup else None
@@ -354,7 +389,11 @@ def normalise(crate_name, bodies, known):
         before = len(report)
         _inline_into(b, pristine, stack, report, not_absorbed, 0)
         if len(report) > before and devirtualise(b, by_path):
-            # the now-direct calls may themselves be helpers that are new to the inventory
+            # the now-direct calls may themselves be helpers that are new to the inventory, or closures built here
+            for p_ in list(_NEW_DIRECT):
+                if p_ in by_path and p_ not in pristine:
+                    pristine[p_] = copy.deepcopy(by_path[p_])
+            _NEW_DIRECT.clear()
             _inline_into(b, pristine, stack, report, not_absorbed, 0)
     absorbed = set()
     for p, b in new.items():
